@@ -860,7 +860,8 @@ fn run_multi(line: &str) -> String {
                                 'B' => fin || sent >= 2,
                                 _ => fin,
                             };
-                            if ok || n > 2 * (c.tmo as usize + 1000) {
+                            // the reaction to a head takes a few ms; E waits for the client's own timeout at most
+                            if ok || n > (if op == 'E' { 2 * (c.tmo as usize + 1000) } else { 1500 }) {
                                 break;
                             }
                             tick().await;
